@@ -253,9 +253,9 @@ def explore_check(prop, tier, tasks, rule, assumptions, extra_cov=None, level="m
     if tier == "thorough":
         # thorough: leaving a process that waits at a poll (running jobs) never costs a preemption
         os.environ.setdefault("JMC_FREE_AT_POLL", "1")
-    cap = float(os.environ.get("JMC_TASK_CAP", "1200" if tier == "thorough" else "0"))
+    cap = float(os.environ.get("JMC_TASK_CAP", "1200" if tier == "thorough" else "900"))
     if cap:
-        # every task of a thorough run has a wall-clock cap; a task that hits it is reported under
+        # every task has a wall-clock cap (quick: 900 s, far above what any task needs on the unchanged tree); a task that hits it is reported under
         # caps_hit and makes the run non-exhaustive (never silently)
         for t in tasks:
             t.setdefault("time_cap", cap)
